@@ -45,16 +45,26 @@ package sql
 //@   modular
 //@ func splitIdentifiers
 //@   modular
+//@ func parseTSFilters
+//@   modular
+//@ func parseKeywordValue
+//@   modular
+//@ func parseLimitToken
+//@   modular
 
 // Token-list helpers (no regular expressions): the loop invariants are the bounds the index expressions need.
 //@ func indexOf
 //@   ensures [C35.index_of_in_range] -1 <= result && result < len(fields)
 //@   loop 1 invariant -1 <= rangeindex && rangeindex < len(fields)
 //@ func hasToken
+//@   modular
 //@   loop 1 invariant -1 <= rangeindex && rangeindex < len(fields)
 //@ func parseFromClause
+//@   modular
 //@   loop 1 invariant -1 <= rangeindex && rangeindex < len(fields)
 //@ func parseJoin
+//@   modular
 //@   loop 1 invariant -1 <= rangeindex && rangeindex < len(fields)
 //@ func parseFilters
+//@   modular
 //@   loop 1 invariant 1 <= i
